@@ -16,8 +16,15 @@ SPELL = {
     "N": ["!defined(M)", "!defined M", "defined(M) == 0"],
     "V": ["M", "M == 1", "M + 0", "(M)"],
     "U": ["NOT_DEFINED_ANYWHERE", "NOT_DEFINED_ANYWHERE + 0", "0 + NOT_DEFINED_ANYWHERE"],
+    # self-referential macros (defined in the batch prologue): the surviving name counts as 0
+    "R": ["!SELF", "PING == 0", "SELF + 1 == 1", "(SELF || PING) == 0", "!PONG"],
+    "H": ['__has_include("vinc.h")', '__has_include("vinc.h") && 1', 'defined(__has_include) && __has_include("vinc.h")'],
+    "J": ['__has_include("no_such_file_anywhere.h")', '__has_include("no_such_file_anywhere.h") || 0'],
 }
-CFG = {"quick": "CondIncl_quick", "thorough": "CondIncl_thorough"}
+PROLOGUE = ["#define SELF SELF", "#define PING PONG", "#define PONG PING"]
+# (cfg, simulate traces per worker or None)
+CFGS = {"quick": [("CondIncl_quick", None), ("CondIncl_deep", None), ("CondIncl_sim", 1500)],
+        "thorough": [("CondIncl_thorough", None), ("CondIncl_deep_thorough", None), ("CondIncl_sim", 40000)]}
 BATCH = 2500
 
 
@@ -29,7 +36,9 @@ def render_line(code, cid, n, rnd):
             "elifndef": "#elifndef M", "else": "#else", "endif": "#endif",
             "text": "int T%d;" % n, "def0": "#define M 0", "def1": "#define M 1",
             "undef": "#undef M", "warn": "#warning W_%d_%d" % (cid, n),
-            "inc": '#include "vinc.h"'}[code]
+            "err": "#error E_%d_%d" % (cid, n),
+            "inc": '#include "vinc.h"', "inc2": '#include "vonce_%d.h"' % cid,
+            "push": '#pragma push_macro("M")', "pop": '#pragma pop_macro("M")'}[code]
 
 
 def render_case(cid, rec, rnd):
@@ -37,11 +46,14 @@ def render_case(cid, rec, rnd):
     for n, code in enumerate(rec["p"], 1):
         out.append(render_line(code, cid, n, rnd))
     out.append("int CE%d = M;" % cid)
+    # drain the push_macro stack so the next case starts from the spec's initial state
+    out += ['#pragma pop_macro("M")'] * sum(1 for x in rec["p"] if x == "push")
     return out
 
 
-TOK = re.compile(r"CB(\d+)|CE(\d+) = (\w+)|T(\d+)\b|(INC)\b")
-WARN = re.compile(r"warning: (?:#warning )?W_(\d+)_(\d+)")
+TOK = re.compile(r"CB(\d+)|CE(\d+) = (\w+)|T(\d+)\b|(INC2?)\b")
+WARN = re.compile(r"(warning|error): (?:#warning |#error )?[WE]_(\d+)_(\d+)")
+VONCE = "#ifdef M\n#pragma once\n#endif\nint INC2;\n"
 
 
 def observe(stdout, stderr):
@@ -59,18 +71,18 @@ def observe(stdout, stderr):
         elif m.group(4):
             res[cur][0].append((int(m.group(4)), "text"))
         elif m.group(5):
-            res[cur][0].append((None, "inc"))
+            res[cur][0].append((None, m.group(5).lower()))
     for m in WARN.finditer(stderr):
-        c = int(m.group(1))
+        c = int(m.group(2))
         if c in res:
-            res[c][2].append(int(m.group(2)))
+            res[c][2].append((m.group(1)[0], int(m.group(3))))
     return res
 
 
 def expected(rec):
     """Same projection computed from the spec state."""
-    seq = [((p if k == "text" else None), k) for p, k in rec["o"] if k in ("text", "inc")]
-    warns = [p for p, k in rec["o"] if k == "warn"]
+    seq = [((p if k == "text" else None), k) for p, k in rec["o"] if k in ("text", "inc", "inc2")]
+    warns = [(k[0], p) for p, k in rec["o"] if k in ("warn", "err")]
     fin = {-1: "M", 0: "0", 1: "1"}[rec["d"]]
     return [seq, fin, warns]
 
@@ -78,18 +90,33 @@ def expected(rec):
 def run_check(ctx):
     build.ensure("hooked")
     tier = ctx.tier
-    dump = os.path.join(ctx.tmp, "dump.ndjson")
-    res = tlc.run("CondInclMC", CFG[tier], env={"VERIF_DUMP": dump}, coverage=False,
-                  timeout=1500 if tier == "quick" else 3000)
-    ctx.add_tlc(res)
-    if res.verdict == "invariant":
-        # the mechanism as modelled does not refine the reference: a spec-level finding, not a code verdict
-        raise MachineryError("CondIncl: invariant %s violated in the model\n%s" % (res.violated, res.out[-2000:]))
-    tlc.must_ok(res)
-    progs = tlc.read_dump(dump)
+    progs = []
+    seen = set()
+    for cfg, sim in CFGS[tier]:
+        dump = os.path.join(ctx.tmp, cfg + ".ndjson")
+        res = tlc.run("CondInclMC", cfg, env={"VERIF_DUMP": dump}, coverage=False, simulate=sim,
+                      depth=15 if sim else None, workers=8 if sim else None,
+                      timeout=1500 if tier == "quick" else 3000)
+        ctx.add_tlc(res)
+        if res.verdict == "invariant":
+            # the mechanism as modelled does not refine the reference: a spec-level finding, not a code verdict
+            raise MachineryError("CondIncl: invariant %s violated in the model\n%s" % (res.violated, res.out[-2000:]))
+        tlc.must_ok(res)
+        recs = tlc.read_dump(dump)
+        if sim:
+            # random walks dump every closed prefix: keep the maximal ones
+            recs.sort(key=lambda r: r["p"])
+            recs = [r for i, r in enumerate(recs)
+                    if i + 1 == len(recs) or recs[i + 1]["p"][:len(r["p"])] != r["p"]]
+            ctx.notes["simulated_programs"] = len(recs)
+        for r in recs:
+            key = tuple(r["p"])
+            if key not in seen:
+                seen.add(key)
+                progs.append(r)
     if not progs:
         raise MachineryError("no programs dumped")
-    ctx.cov["exhaustive"] = True
+    ctx.cov["exhaustive"] = True   # the BFS configurations; the simulated deeper programs are extra
     ctx.cov["rule"] = ("TLC enumerates every well-nested directive sequence within the cfg bounds; each closed "
                        "program containing a conditional is replayed through parse_file -E and gcc -E; "
                        "non-trivial = the program has at least one skipped line with an effect or at least one "
@@ -102,11 +129,14 @@ def run_check(ctx):
     cid = 0
     index = {}
     for bi, b in enumerate(batches):
-        lines = []
+        lines = list(PROLOGUE)
         for rec in b:
             cid += 1
             index[cid] = rec
             lines += render_case(cid, rec, rnd)
+            if "inc2" in rec["p"]:
+                # (gcc identifies once-only files by content: make each file unique)
+                open(os.path.join(work, "vonce_%d.h" % cid), "w").write("// once-file of case %d\n" % cid + VONCE)
         fn = "b%03d.c" % bi
         open(os.path.join(work, fn), "w").write("\n".join(lines) + "\n")
         files.append(fn)
@@ -122,9 +152,10 @@ def run_check(ctx):
     nontrivial = set()
     n_eval = 0
     for fn, r, g, tr in results:
-        if g.returncode != 0:
+        has_err = "#error" in open(os.path.join(work, fn)).read()
+        if g.returncode not in ((0, 1) if has_err else (0,)):
             raise MachineryError("gcc -E failed on %s: %s" % (fn, g.stderr[-500:]))
-        if r.rc != 0 or r.timed_out:
+        if r.rc not in ((0, 1) if has_err else (0,)) or r.timed_out:
             ctx.violation("parse_file -E exited with %s (signal %s, timeout %s) on a batch of well-nested programs"
                           % (r.rc, r.signal, r.timed_out), dict(file=fn, stderr=r.stderr[-2000:]))
             continue
@@ -141,7 +172,7 @@ def run_check(ctx):
                 ctx.violation("program %s: expected kept=%s finalM=%s warns=%s, parse_file gave %s" % (
                     " / ".join(rec["p"]), exp[0], exp[1], exp[2], got),
                     dict(program=render_case(c, rec, random.Random(0)), expected=exp, observed=got))
-            if len(rec["o"]) < sum(1 for x in rec["p"] if x in ("text", "warn", "inc")) or rec["ev"]:
+            if len(rec["o"]) < sum(1 for x in rec["p"] if x in ("text", "warn", "err", "inc", "inc2")) or rec["ev"]:
                 nontrivial.add(tuple(rec["p"]))
     ctx.cov["evaluations"] += n_eval
     ctx.cov["distinct_nontrivial"] = len(nontrivial)
